@@ -21,8 +21,8 @@ stamp, each leaving the provenance as it is:
   `congr`    — a forest with the same `tree?` answers (`Find` stores the tree it walked back into
                the forest even when nothing changed; nothing ever reads a forest but through `tree?`).
 Every `Built` forest is `Built'`; C12's provenance theorem holds for `Built'` (`namespace_placedBy_prime`);
-`Built'` is threaded through `augmentTree`, `augmentPass`, `augmentLoop`, `FixChoice`, the leftover pass
-and the second `FixChoice` for every input (`preDev_builtPrime`, `processAll_builtPrime`).
+`Built'` is threaded through `augmentTree`, `augmentPass`, `augmentLoop`, `FixChoice`, the retry rounds
+(loop and `FixChoice` again), the reporting sweep and the last `FixChoice` for every input (`preDev_builtPrime`, `processAll_builtPrime`).
 
 From `Built'` to `Built` on an error-free run (Lemmas/ConfigNsComm.lean, Lemmas/ConfigNsBuilt.lean):
   * `rootErr` is absent: an error on a root is never removed (`builtX_of_clean`; in the threading:
@@ -101,7 +101,7 @@ theorem phaseStart_builtPrime (reg : Registry) (opts : Opts) (plug : Plug) : BI 
   bi_pstate0 reg opts plug
 
 /-- **The forest `processAll` applies its deviations to is `Built'`**: through the augment loop,
-`FixChoice`, the leftover pass and the second `FixChoice` — for every registry, option set and
+`FixChoice`, the retry rounds, the reporting sweep and the last `FixChoice` — for every registry, option set and
 plugged-in type / identity / typedef stage. -/
 theorem preDev_builtPrime (reg : Registry) (opts : Opts) (plug : Plug) :
     ∃ prov, Built' reg (Lemmas.Tree.preDev reg opts plug).forest prov :=
@@ -176,8 +176,8 @@ theorem devStage_keeps_builtX (reg : Registry) (opts : Opts) (plug : Plug) (f0 :
   Goyang.Lemmas.ConfigNsDev.devStage_builtX reg opts plug f0 hb
 
 /-- **The forest `processAll` ends with** (whenever it reaches the augment phase; clean or not,
-deviations or not) **is `BuiltX`**: conversion, augment loop, `FixChoice`, leftover pass, second
-`FixChoice`, deviation stage. -/
+deviations or not) **is `BuiltX`**: conversion, augment loop, `FixChoice`, retry rounds, reporting
+sweep, last `FixChoice`, deviation stage. -/
 theorem final_builtX (reg : Registry) (opts : Opts) (plug : Plug) :
     ∃ prov, BuiltX reg true (Lemmas.Tree.devStage reg opts plug (Lemmas.Tree.preDev reg opts plug).forest).1 prov :=
   Goyang.Lemmas.ConfigNsDev.final_builtX reg opts plug
